@@ -1,8 +1,12 @@
 (* C01 -- HTTP/1.x request framing is unambiguous; malformed framing is rejected.
    Property theorems only; proofs in H1/H1Proofs.v.  The model (H1/H1Model.v) is tied to
    src/request.c, src/http_header.c, src/http_kv.c by Gen/GenH1.v (header-name table, ids, methods)
-   and by differential correspondence (harness/h1req_h.c <-> extracted h1_parse). *)
-From LV Require Import Base.Bytes Gen.GenBurl Gen.GenH1 Url.UrlModel H1.H1Model H1.H1Proofs.
+   and by differential correspondence (harness/h1req_h.c <-> extracted h1_parse).
+   The connection level (H1/ConnH1.v: header extent, body readers, keep-alive reuse) is tied to src/h1.c by the running server under
+   random TCP segmentation (props/h1conn.py <-> extracted run_conn). *)
+From Coq Require Import List ZArith.
+From LV Require Import Base.Bytes Gen.GenBurl Gen.GenH1 Url.UrlModel H1.H1Model H1.H1Proofs Resp.RespModel H1.ConnH1 H1.ConnH1Proofs.
+Import ListNotations.
 Local Open Scope N_scope.
 
 (* repeated Content-Length: whatever precedes, separates or follows the two fields and whatever their
@@ -26,3 +30,40 @@ Theorem reject_te_not_chunked_or_http10 : forall st v st',
   v = [] /\ st' = st \/ (st_http11 st = true /\ eq_icase v s_chunked = true /\ st_rlen st <> (-1)%Z /\ st_rlen st' = (-1)%Z).
 Proof. exact te_step. Qed.
 Print Assumptions reject_te_not_chunked_or_http10.
+
+(* ---- the connection: where one message ends and the next begins ---- *)
+
+(* a chunked body written by any sender that uses minimal hex sizes and CRLF is read back exactly, and what follows the last-chunk
+   CRLF CRLF is left untouched for the next request -- for every number and content of chunks (NUL, CR, LF, text that looks like a
+   request included) *)
+Theorem chunked_body_is_read_back_exactly : forall maxf blocks f rest acc,
+  Forall sendable blocks -> (length blocks < f)%nat ->
+  dechunk_req f maxf (concat (map (chunk_with hexmin) blocks) ++ last_chunk ++ rest) acc = ChDone (rev acc ++ concat blocks) rest true false.
+Proof. exact dechunk_req_roundtrip. Qed.
+Print Assumptions chunked_body_is_read_back_exactly.
+
+(* an accepted message consumes its header section and exactly the body its framing declares (none, Content-Length, chunked);
+   the rest of the stream is then parsed as if it had arrived alone on a kept-alive connection: body bytes never start a request *)
+Theorem message_consumes_exactly_its_own_bytes : forall flags maxf first h nl o enc body rest f,
+  head_extent (split_lines h []) O O = Some (length h, S nl) ->
+  (N.of_nat (length h) <= maxf)%N ->
+  h1_parse flags h = H1Ok o ->
+  encodes o enc body ->
+  conn (S f) flags maxf first (h ++ enc ++ rest)
+  = EvAccept (o_method o) (o_target_orig o) body (o_ka o) false :: (if o_ka o then conn f flags maxf false rest else []).
+Proof. exact accepted_message_consumes_exactly_its_bytes. Qed.
+Print Assumptions message_consumes_exactly_its_own_bytes.
+
+(* a refusal, an unfinished message and a message without keep-alive are each the last thing that happens on the connection *)
+Theorem nothing_follows_a_refusal : forall fuel flags maxf first s, only_last_ends (conn fuel flags maxf first s).
+Proof. exact refusal_or_close_is_final. Qed.
+Print Assumptions nothing_follows_a_refusal.
+
+(* non-vacuity: a chunked POST whose body is a complete GET request, followed by a real GET: two requests, not three *)
+Example smuggling_shape_is_two_requests :
+  let h := [80;79;83;84;32;47;101;32;72;84;84;80;47;49;46;49;13;10;72;111;115;116;58;32;97;13;10;84;114;97;110;115;102;101;114;45;69;110;99;111;100;105;110;103;58;32;99;104;117;110;107;101;100;13;10;13;10] in
+  let g := [71;69;84;32;47;120;32;72;84;84;80;47;49;46;49;13;10;72;111;115;116;58;32;97;13;10;13;10] in
+  head_extent (split_lines h []) O O = Some (length h, 3%nat)
+  /\ length (run_conn 9567 8192 (h ++ chunk_with hexmin g ++ last_chunk ++ g)) = 2%nat
+  /\ match run_conn 9567 8192 (h ++ chunk_with hexmin g ++ last_chunk ++ g) with EvAccept _ _ b _ _ :: _ => b = g | _ => False end.
+Proof. vm_compute. repeat split; reflexivity. Qed.
